@@ -478,12 +478,34 @@ def check(ctx: Ctx) -> None:
                     ob.violation(f_from, ct.node, "unpacked header fields do not reach Message(msgcode, channelid, read(length)) in their roles")
         if nctor == 0:
             ob.violation(f_from, unpacks[0], "header is not unpacked into three fields")
-        # empty header -> EOFError
-        hvar = unparse(repo.parent(reads[0]).targets[0]) if isinstance(repo.parent(reads[0]), ast.Assign) else None
-        eof = [s for s in repo.own_nodes(f_from) if isinstance(s, ast.If) and hvar and unparse(s.test) == f"not {hvar}"
-               and isinstance(s.body[-1], ast.Raise) and unparse(s.body[-1].exc).startswith("EOFError")]
-        ob.site(f_from, eof[0] if eof else f_from.node, "empty header read raises EOFError", ok=bool(eof))
-        if not eof:
+        # empty header -> EOFError: the unpack is reached only with a header established non-empty, and the empty case raises EOFError
+        from ..terms import cmp_term as _cmp, tv as _tv
+        n_unp = n_eof = 0
+        eof_ok = True
+        for (pth, st_) in evfrom.run(limit=4000):
+            hd = [e for e in st_.events if e.kind == "call" and e.node is reads[0]]
+            if not hd:
+                continue
+            H = hd[0].result
+            LH = ("pcall", "len", (H,), ())
+
+            def nonempty(known, H=H, LH=LH):
+                return _tv(H, known) is True or _tv(_cmp("eq", LH, _c(0)), known) is False or _tv(_cmp("lt", _c(0), LH), known) is True \
+                    or _tv(_cmp("le", _c(1), LH), known) is True
+
+            def empty(known, H=H, LH=LH):
+                return _tv(H, known) is False or _tv(_cmp("eq", LH, _c(0)), known) is True or _tv(_cmp("lt", _c(0), LH), known) is False
+            for e in st_.events:
+                if e.kind == "call" and e.node is unpacks[0]:
+                    n_unp += 1
+                    if not nonempty(dict(st_.cond[:e.ncond])):
+                        eof_ok = False
+            rz = [e for e in st_.events if e.kind == "raise"]
+            if rz and rz[-1].value is not None and rz[-1].value[0] == "fresh" and str(rz[-1].value[2]).split(".")[-1] == "EOFError" and empty(dict(st_.cond[:rz[-1].ncond])):
+                n_eof += 1
+        eof_ok = eof_ok and n_unp >= 1 and n_eof >= 1
+        ob.site(f_from, f_from.node, "empty header read raises EOFError", ok=eof_ok)
+        if not eof_ok:
             ob.violation(f_from, f_from.node, "an empty header read does not raise EOFError", construct="no empty-header EOF")
 
     check_single_write(ctx, "C08.b")
